@@ -167,7 +167,7 @@ def rule_rs2(A: Analysis, rep, F: Optional[RestoreFacts] = None):
 def rule_name1(A: Analysis, rep):
     """Every producer/consumer of a version directory path uses the same helper."""
     sites = []
-    for f in A.prog.functions.values():
+    for f in A.prog.scan_functions:
         if f.fq.startswith(("conductor.envs", "conductor.explorer")):
             continue
         for c in walk_local(f.node):
@@ -230,6 +230,21 @@ def rule_ar1(A: Analysis, rep):
         len(tx.args) == 2 and norm(tx.args[1]) == "args.task_identifier"
     rep.check(ok, "AR1", "selection flags reach the copy", c, "tasks = closure of the named task (or None), latest_only = --latest",
               "copy_entries_to(tasks=%s, latest_only=%s)" % (norm(tasks) if tasks is not None else "?", norm(latest) if latest is not None else "?"))
+    # AR3: the archive index starts EMPTY: create_or_load() *loads* an existing file, so a file left behind by a
+    # killed `cond archive` must be removed before it is (re)created
+    col = [n for n in g.nodes if n.kind == "stmt" and isinstance(n.ast, ast.Assign) and norm(n.ast.targets[0]) == idx and
+           any(isinstance(x, ast.Call) and A.res.is_call_to(x, "VersionIndex.create_or_load") for x in walk_local(n.ast))]
+    ok3 = False
+    det3 = "archive index is not created by VersionIndex.create_or_load(<path>)"
+    if len(col) == 1:
+        call_ = [x for x in walk_local(col[0].ast) if isinstance(x, ast.Call) and A.res.is_call_to(x, "VersionIndex.create_or_load")][0]
+        pth = norm(call_.args[0]) if call_.args else "?"
+        unl = [n for n in g.nodes if n.kind == "stmt" and norm(n.ast) in ("%s.unlink(missing_ok=True)" % pth,)]
+        before = [u for u in unl if g.all_paths_pass(g.entry, col[0], [u], skip_labels=skip) and not g.reachable(col[0], u, skip_labels=skip)]
+        ok3 = bool(before)
+        det3 = ("`%s` is loaded by create_or_load() without having been removed first: rows left in a stale archive index (a killed `cond archive`) "
+                "would be archived too" % pth)
+    rep.check(ok3, "AR3", "the archive index starts empty", fi.node, "the index file is unlinked before create_or_load()", det3)
     # zero rows -> error
     cnt = norm(_stmt_of(c).targets[0]) if isinstance(_stmt_of(c), ast.Assign) else None
     ok = cnt is not None and any(isinstance(i, ast.If) and norm(i.test) == "%s == 0" % cnt and any(isinstance(x, ast.Raise) for x in i.body) for i in walk_local(fi.node))
